@@ -17,8 +17,8 @@ VM = {"name": "exec", "quick": 1500, "thorough": 120000}
 PROPS = {
     "C09": {
         "modules": ["C09", "C09Seal"],
-        "streams": [{"name": "hostile", "quick": 70, "thorough": 9600}, {"name": "apply", "quick": 25, "thorough": 3200},
-                    {"name": "seal", "quick": 60, "thorough": 3200}, {"name": "chain", "quick": 15, "thorough": 2000},
+        "streams": [{"name": "hostile", "quick": 210, "thorough": 9600}, {"name": "apply", "quick": 75, "thorough": 3200},
+                    {"name": "seal", "quick": 180, "thorough": 3200}, {"name": "chain", "quick": 45, "thorough": 2000},
                     {"name": "exec", "quick": 600, "thorough": 60000}, {"name": "feemult", "quick": 100, "thorough": 4500}],
         "projection": "panics",
         "oracles": ["panics"],
@@ -58,26 +58,26 @@ PROPS = {
     },
     "C15": {
         "modules": ["C15"],
-        "streams": [{"name": "seal", "quick": 60, "thorough": 7200}],
+        "streams": [{"name": "seal", "quick": 180, "thorough": 7200}],
         "projection": "settlement",
         "oracles": ["settlement"],
         "assumptions": ["PoolState arithmetic and PoolKey parsing live in the dependency melstructs: modelled (exact Nat arithmetic for BigRational floor), compared on every seal"],
     },
     "C16": {
         "modules": ["C16"],
-        "streams": [{"name": "seal", "quick": 60, "thorough": 7200}],
+        "streams": [{"name": "seal", "quick": 180, "thorough": 7200}],
         "projection": "pools",
         "oracles": ["pools"],
     },
     "C17": {
         "modules": ["C17"],
-        "streams": [{"name": "feemult", "quick": 300, "thorough": 9000}, {"name": "seal", "quick": 25, "thorough": 2400}],
+        "streams": [{"name": "feemult", "quick": 300, "thorough": 9000}, {"name": "seal", "quick": 75, "thorough": 2400}],
         "projection": "feemult",
         "oracles": ["feemult"],
     },
     "C01": {
         "modules": ["C01", "C01Seal"],
-        "streams": [{"name": "apply", "quick": 50, "thorough": 6400}, {"name": "seal", "quick": 50, "thorough": 6400}, {"name": "chain", "quick": 20, "thorough": 2400}],
+        "streams": [{"name": "apply", "quick": 150, "thorough": 6400}, {"name": "seal", "quick": 150, "thorough": 6400}, {"name": "chain", "quick": 60, "thorough": 2400}],
         "projection": "supply",
         "oracles": ["conservation"],
         "assumptions": ["C01_settlement assumes the block's coins are as declared (Faithful — what C02_exact establishes), unique keys/hashes and a per-denomination coin total below 2^128",
@@ -85,15 +85,15 @@ PROPS = {
     },
     "C02": {
         "modules": ["C02"],
-        "streams": [{"name": "apply", "quick": 60, "thorough": 7200}, {"name": "chain", "quick": 25, "thorough": 2400}],
+        "streams": [{"name": "apply", "quick": 180, "thorough": 7200}, {"name": "chain", "quick": 75, "thorough": 2400}],
         "projection": "coins_after_batch",
         "oracles": ["utxo_reference"],
         "assumptions": ["faucet marker ids are disjoint from transaction hashes (domain-separated keyed hash) — hypothesis MarkersApart of C02_exact"],
     },
     "C03": {
         "modules": ["C03"],
-        "streams": [{"name": "apply", "quick": 45, "thorough": 4800, "rayon": [1, 4, 2, 16]}, {"name": "chain", "quick": 20, "thorough": 2400, "rayon": [1, 3]},
-                    {"name": "mint", "quick": 60, "thorough": 4800}],
+        "streams": [{"name": "apply", "quick": 135, "thorough": 4800, "rayon": [1, 4, 2, 16]}, {"name": "chain", "quick": 60, "thorough": 2400, "rayon": [1, 3]},
+                    {"name": "mint", "quick": 180, "thorough": 4800}],
         "projection": "batch_all",
         "compare_rayon": True,
         "oracles": [],
@@ -102,28 +102,28 @@ PROPS = {
     },
     "C04": {
         "modules": ["C04"],
-        "streams": [{"name": "apply", "quick": 40, "thorough": 4800}, {"name": "cov", "quick": 50, "thorough": 4800}, {"name": "exec", "quick": 500, "thorough": 30000}],
+        "streams": [{"name": "apply", "quick": 120, "thorough": 4800}, {"name": "cov", "quick": 150, "thorough": 4800}, {"name": "exec", "quick": 500, "thorough": 30000}],
         "projection": "status",
         "oracles": [],
         "assumptions": ["Ed25519 verification and blake3 are parameters: the model is given the answers the real executor obtained (hook log) and a missing answer is a disagreement"],
     },
     "C05": {
         "modules": ["C05"],
-        "streams": [{"name": "apply", "quick": 60, "thorough": 7200}, {"name": "seal", "quick": 30, "thorough": 3200}, {"name": "weight", "quick": 200, "thorough": 9000}],
+        "streams": [{"name": "apply", "quick": 180, "thorough": 7200}, {"name": "seal", "quick": 90, "thorough": 3200}, {"name": "weight", "quick": 200, "thorough": 9000}],
         "projection": "fees",
         "oracles": ["fees"],
         "assumptions": ["the serialised length of a transaction is an input of the model (supplied by the implementation)"],
     },
     "C06": {
         "modules": ["C06"],
-        "streams": [{"name": "chain", "quick": 40, "thorough": 4000}],
+        "streams": [{"name": "chain", "quick": 120, "thorough": 4000}],
         "projection": "blocks",
         "oracles": [],
         "assumptions": ["a block's header equality is decided on the real headers; the model computes the scalar header fields itself and is given the Merkle roots of the states involved"],
     },
     "C07": {
         "modules": ["C07", "C07Chain"],
-        "streams": [{"name": "chain", "quick": 40, "thorough": 4000}, {"name": "merkle", "quick": 40, "thorough": 2400}],
+        "streams": [{"name": "chain", "quick": 120, "thorough": 4000}, {"name": "merkle", "quick": 40, "thorough": 2400}],
         "projection": "chain",
         "oracles": [],
         "assumptions": ["blake3 collision-freeness enters as the explicit hypotheses `Injective` / `RootsInjective` of the soundness and sensitivity theorems",
@@ -131,35 +131,35 @@ PROPS = {
     },
     "C08": {
         "modules": ["C08"],
-        "streams": [{"name": "chain", "quick": 40, "thorough": 4000}],
+        "streams": [{"name": "chain", "quick": 120, "thorough": 4000}],
         "projection": "restore",
         "oracles": [],
         "assumptions": ["the content-addressed store is not modelled: fromBlock is given the tree contents the header's roots denote"],
     },
     "C13": {
         "modules": ["C13"],
-        "streams": [{"name": "apply", "quick": 60, "thorough": 7200}, {"name": "chain", "quick": 25, "thorough": 2400}],
+        "streams": [{"name": "stake", "quick": 180, "thorough": 6400}, {"name": "apply", "quick": 90, "thorough": 3200}, {"name": "chain", "quick": 60, "thorough": 2400}],
         "projection": "stakes",
         "oracles": ["stakes"],
         "assumptions": ["the decoded StakeDoc of a transaction's data is an input of the model (decoded by the real stdcode)"],
     },
     "C18": {
         "modules": ["C18"],
-        "streams": [{"name": "mint", "quick": 120, "thorough": 12000}, {"name": "apply", "quick": 30, "thorough": 3200}],
+        "streams": [{"name": "mint", "quick": 360, "thorough": 12000}, {"name": "apply", "quick": 90, "thorough": 3200}],
         "projection": "speed",
         "oracles": ["mint"],
         "assumptions": ["MelPoW verification is a parameter: the verdict for the puzzle (header at the coin's height, coin id) is computed by the harness from the specification with the real melpow and shipped to the model"],
     },
     "C19": {
         "modules": ["C19"],
-        "streams": [{"name": "apply", "quick": 60, "thorough": 7200}, {"name": "chain", "quick": 25, "thorough": 2400}],
+        "streams": [{"name": "faucet", "quick": 180, "thorough": 6400}, {"name": "apply", "quick": 90, "thorough": 3200}, {"name": "chain", "quick": 60, "thorough": 2400}],
         "projection": "coins_after_batch",
         "oracles": ["faucet"],
         "assumptions": ["no covenant hashes to the zero address; marker ids are disjoint from transaction hashes and reward ids (keyed-hash domain separation)"],
     },
     "C20": {
         "modules": ["C20"],
-        "streams": [{"name": "apply", "quick": 40, "thorough": 4800}, {"name": "seal", "quick": 40, "thorough": 4800}, {"name": "chain", "quick": 30, "thorough": 3200}],
+        "streams": [{"name": "apply", "quick": 120, "thorough": 4800}, {"name": "seal", "quick": 120, "thorough": 4800}, {"name": "chain", "quick": 90, "thorough": 3200}],
         "projection": "counts",
         "oracles": ["counts"],
     },
